@@ -69,6 +69,11 @@ CASES = {
                task("tB", [svc("S2")]),
                task("tC", [svc("S3"), svc("S4")])],
         vals=[val()], order="fifo"),
+    "D20-reentrant-in-finished": dict(
+        finding="D20-reentrant-in-finished", properties=["C07", "C01"],
+        tasks=[task("productionTask", [("parallel", [("tA", [], []), ("tB", [], [])])]),
+               task("tA", [svc("S1")]), task("tB", [svc("S2")])],
+        vals=[val()], order="fifo", react=[None, None, None, None, None, 0] + [None] * 20, react_all=True),
     # ---- defects repaired by fix: commits (a failure here is an ordinary violation) ----
     "D1-parloop-zero": dict(
         fixed="D1", properties=["C06", "C01", "C09"],
@@ -114,13 +119,15 @@ CASES = {
 
 def build(name, spec):
     prog = {"structs": STRUCTS, "tasks": spec["tasks"]}
-    case = {"prog": prog, "vals": spec["vals"] + [gen_run.FINAL_VALUATION], "imm": [False] * 40}
+    case = {"prog": prog, "vals": spec["vals"] + [gen_run.FINAL_VALUATION], "imm": [False] * 40,
+            "react": spec.get("react"), "react_all": spec.get("react_all", False)}
     test_ids = spec.get("test_ids", True)
     mutate = spec.get("mutate", False)
     # derive the script by driving the implementation: complete pending services fifo / lifo
     import impl_run
     text = run_cases.render(prog)
-    run = impl_run.ImplRun(text, case["vals"], case["imm"], test_ids=test_ids, mutate=mutate)
+    run = impl_run.ImplRun(text, case["vals"], case["imm"], test_ids=test_ids, mutate=mutate,
+                           react=case["react"], react_all=case["react_all"])
     assert run.valid, run.stdout
     script = [("start",)]
     pending = []
@@ -148,6 +155,7 @@ def build(name, spec):
     script += spec.get("extra_script", [])
     out = {"kind": "run", "properties": spec["properties"], "prog": prog, "vals": case["vals"], "imm": case["imm"],
            "script": script, "options": {"test_ids": test_ids, "mutate": mutate},
+           "react": case["react"], "react_all": case["react_all"],
            "program_text": text, "note": "implementation raised %s while the script was derived" % exc if exc else ""}
     if "finding" in spec:
         out["finding"] = spec["finding"]
